@@ -10,6 +10,7 @@ CONSTANTS
   Plus = "max"
   Times = "add"
   LeafKind = "lin"
+  Param = FALSE
   Tag = "sp_maxadd"
 INVARIANT Inv_OracleInputs
 INVARIANT Emit
